@@ -2,7 +2,9 @@ H("c13_logs", "C13", "seq", ["harness/c13_logs.cc", "harness/c13_sites4_0.cc", "
   sdk=["common", "version", "resource", "trace", "logs"],
   what="real LoggerProvider/Logger/MultiLogRecordProcessor/SimpleLogRecordProcessor/ReadWriteLogRecord with processors {simple},{deferred},{simple,deferred},{deferred,simple} "
        "(deferred = harness processor that exports the queued real recordables after the caller's buffers were scribbled / freed): every ordered selection of <=3 (thorough <=4) "
-       "argument kinds of EmitLogRecord(args...) x 8 active-span configurations; every AttributeValue alternative and C++ carrier type as body / attribute value; attribute list "
-       "shapes; CreateLogRecord + all setter sequences up to depth 3 (4) + EmitLogRecord(record) with the span changing in between; null records; disabled logger; two emits - "
-       "compared field by field with the emit-time values at every exporter",
+       "argument kinds of EmitLogRecord(args...) x 11 active-span configurations (incl. a null Span / SpanContext pointer under the span key); every AttributeValue alternative and C++ "
+       "carrier type as body / attribute value; attribute list shapes; one call writing a field twice (two attribute containers sharing a key, two bodies); CreateLogRecord + all setter "
+       "sequences up to depth 3 (4) + EmitLogRecord(record) with the span changing in between; null records; disabled logger; two emits; every one of the 34 convenience methods of "
+       "logs::Logger (24 Trace..Fatal wrappers, 4 Log overloads, 6 variadic Trace..Fatal with 6 argument shapes) at every level; the EventLogger - compared field by field with the "
+       "emit-time values at every exporter (on the deferred exporter by value and by storage identity), fields never supplied compared with an untouched recordable",
   design_ref="5/C13")
